@@ -25,6 +25,7 @@ type setSubj[T comparable] struct {
 	calls    *int64
 	cmp      func(a, b T) int
 	loadD    []T
+	memo     map[T]string // class strings (the model compares classes a lot)
 }
 
 func newSetSubj[T comparable](cfg Cfg, d *Dom[T], count bool) *setSubj[T] {
@@ -64,10 +65,20 @@ func (s *setSubj[T]) Fresh() Subject {
 }
 
 func (s *setSubj[T]) class(x T) string {
-	if s.cfg.Kind == "treeset" {
-		return s.d.Class(x)
+	if c, ok := s.memo[x]; ok {
+		return c
 	}
-	return s.d.Str(x)
+	var c string
+	if s.cfg.Kind == "treeset" {
+		c = s.d.Class(x)
+	} else {
+		c = s.d.Str(x)
+	}
+	if s.memo == nil {
+		s.memo = map[T]string{}
+	}
+	s.memo[x] = c
+	return c
 }
 
 func (s *setSubj[T]) find(x T) int {
@@ -224,6 +235,9 @@ func (s *setSubj[T]) modelOrdered() []T {
 }
 
 func (s *setSubj[T]) check(o *Oracle) {
+	if o.Sparse {
+		return
+	}
 	if !(o.On("C04") || o.On("C02") || o.On("C09") || o.On("C15") || o.On("C16")) {
 		return
 	}
@@ -238,7 +252,7 @@ func (s *setSubj[T]) check(o *Oracle) {
 				o.Fail(tag, "contains", "after %s: Contains(%s)=%v, want %v", o.cur, s.d.Str(x), got, want)
 			}
 		}
-		for _, x := range s.d.Tab {
+		for _, x := range probeTab(s.d.Tab, s.cfg, o.cur.ID) {
 			probe(x)
 		}
 		for _, x := range s.d.Probes {
@@ -247,7 +261,7 @@ func (s *setSubj[T]) check(o *Oracle) {
 		if !s.s.Contains() {
 			o.Fail(tag, "contains-empty", "after %s: Contains() with no arguments is false", o.cur)
 		}
-		n := 1 + derive(o.cur.ID, 1, 4)
+		n := 1 + derive(o.cur.ID, 1, 6)
 		q := make([]T, n)
 		want := true
 		for i := range q {
@@ -570,3 +584,11 @@ func (s *setSubj[T]) EncodeModel() []byte {
 	return mustJSON(s.modelOrdered())
 }
 func (s *setSubj[T]) AdoptModel(from Subject) { s.m = slices.Clone(from.(*setSubj[T]).m) }
+
+// CheckNow runs the state comparison regardless of the sparse setting.
+func (s *setSubj[T]) CheckNow(o *Oracle) {
+	sp := o.Sparse
+	o.Sparse = false
+	s.check(o)
+	o.Sparse = sp
+}
